@@ -126,6 +126,22 @@ Definition save (c : cfg) (bu bc : built) (s0 : rst) : rst :=
   then execute c OpCreate bc (clear_stmt s1)
   else s1.
 
+(* CreateInBatches (also Create with CreateBatchSize): one Create per batch, each on its own
+   statement, stopping at the first error; more than one batch is wrapped in db.Transaction unless
+   SkipDefaultTransaction (inside it the batches find a *sql.Tx as ConnPool: no nested begin) *)
+Fixpoint run_batches (c : cfg) (bs : list built) (s : rst) : rst :=
+  match bs with
+  | [] => s
+  | b :: r => if r_err s then s else run_batches c r (execute c OpCreate b (clear_stmt s))
+  end.
+Definition create_in_batches (c : cfg) (bs : list built) (s0 : rst) : rst :=
+  if c_skip c || (length bs <=? 1)%nat then clear_stmt (run_batches c bs s0)
+  else
+    let (s1, d) := call EBegin s0 in
+    if d_err d then set_err s1 else
+    let s2 := run_batches (mk_cfg (c_dry c) true) bs s1 in
+    clear_stmt (fst (call (if r_err s2 then ERollback else ECommit) s2)).
+
 (* observables *)
 Definition is_tx_event (e : ev) : bool := match e with EBegin | ECommit | ERollback => true | _ => false end.
 Fixpoint first_stmt (l : list ev) : option (string * list scalar) :=
